@@ -394,9 +394,9 @@ theorem scan_zip (hne : sep ≠ hd) (hb : b ≠ hd ∧ b ≠ sep) (s : Γ) (hs :
         simp only [List.length_append, List.length_cons, List.length_nil]; omega
       have hf : f0 + ([] : List Γ).length + 2 = (f0 + 1) + 1 + ([] : List Γ).length := by simp
       rw [ht, hi, hf, scan_tail hd sep b s .R hne [] Clean.nil (f0 + 1)]
-      simp only [List.length_append, List.length_cons, List.length_nil, List.append_nil,
+      simp only [List.length_append, List.length_cons, List.length_nil,
         List.append_assoc, List.cons_append, List.nil_append]
-      congr 3 <;> omega
+      congr 3
     | cons x B' =>
       have hx := hB x (by simp)
       have hB' : Clean hd sep B' := fun y hy => hB y (by simp [hy])
@@ -410,7 +410,7 @@ theorem scan_zip (hne : sep ≠ hd) (hb : b ≠ hd ∧ b ≠ sep) (s : Γ) (hs :
         simp only [List.length_append, List.length_cons, List.length_nil]; omega
       have hf : f0 + (x :: B').length + 2 = (f0 + 2) + 1 + B'.length := by simp; omega
       rw [ht, hi, hf, scan_tail hd sep b s .R hne B' hB' (f0 + 2)]
-      simp only [List.length_append, List.length_cons, List.length_nil, List.append_nil,
+      simp only [List.length_append, List.length_cons, List.length_nil,
         List.append_assoc, List.cons_append, List.nil_append]
       congr 3 <;> omega
   | N =>
@@ -423,7 +423,7 @@ theorem scan_zip (hne : sep ≠ hd) (hb : b ≠ hd ∧ b ≠ sep) (s : Γ) (hs :
       simp only [List.length_append, List.length_cons, List.length_nil]; omega
     have hf : f0 + B.length + 2 = (f0 + 1) + 1 + B.length := by omega
     rw [ht, hi, hf, scan_tail hd sep b s .N hne B hB (f0 + 1)]
-    simp only [List.length_append, List.length_cons, List.length_nil, List.append_nil,
+    simp only [List.length_append, List.length_cons, List.length_nil,
       List.append_assoc, List.cons_append, List.nil_append]
     congr 3 <;> omega
   | bad =>
@@ -436,7 +436,7 @@ theorem scan_zip (hne : sep ≠ hd) (hb : b ≠ hd ∧ b ≠ sep) (s : Γ) (hs :
       simp only [List.length_append, List.length_cons, List.length_nil]; omega
     have hf : f0 + B.length + 2 = (f0 + 1) + 1 + B.length := by omega
     rw [ht, hi, hf, scan_tail hd sep b s .bad hne B hB (f0 + 1)]
-    simp only [List.length_append, List.length_cons, List.length_nil, List.append_nil,
+    simp only [List.length_append, List.length_cons, List.length_nil,
       List.append_assoc, List.cons_append, List.nil_append]
     congr 3 <;> omega
   | L =>
@@ -452,7 +452,7 @@ theorem scan_zip (hne : sep ≠ hd) (hb : b ≠ hd ∧ b ≠ sep) (s : Γ) (hs :
         simp only [List.length_append, List.length_cons, List.length_nil]; omega
       have hf : f0 + B.length + 2 = f0 + 1 + (s :: B).length := by simp; omega
       rw [ht, hi, hf, scan_tail hd sep b s .L hne (s :: B) hsB f0]
-      simp only [List.length_append, List.length_cons, List.length_nil, List.append_nil,
+      simp only [List.length_append, List.length_cons, List.length_nil,
         List.append_assoc, List.cons_append, List.nil_append]
       congr 3 <;> omega
     · rw [List.concat_eq_append] at hAeq
@@ -469,10 +469,227 @@ theorem scan_zip (hne : sep ≠ hd) (hb : b ≠ hd ∧ b ≠ sep) (s : Γ) (hs :
         simp only [List.length_append, List.length_cons, List.length_nil]; omega
       have hf : f0 + B.length + 2 = f0 + 1 + (s :: B).length := by simp; omega
       rw [ht, hi, hf, scan_tail hd sep b s .L hne (s :: B) hsB f0]
-      simp only [List.length_append, List.length_cons, List.length_nil, List.append_nil,
+      simp only [List.length_append, List.length_cons, List.length_nil,
         List.append_assoc, List.cons_append, List.nil_append]
       congr 3 <;> omega
 
 end Step
+
+/-! ### all moves of one transition -/
+
+/-- A tape the simulation can represent: class invariant, the machine's blank, no cell equal
+to the head mark or the separator. -/
+structure GoodTape (hd sep b : Γ) (t : Tape Γ) : Prop where
+  wf : t.WF
+  blank : t.blank = b
+  clean : Clean hd sep t.cells
+
+theorem Tape.ofZip_read (A : List Γ) (c : Γ) (B : List Γ) (b : Γ) : (Tape.ofZip A c B b).read = c := by
+  simp [Tape.ofZip, Tape.read]
+
+theorem encTape_length (hd sep : Γ) {t : Tape Γ} (h : t.WF) :
+    (encTape hd sep t).length = t.cells.length + 2 := by
+  obtain ⟨A, c, B, ht⟩ := Tape.exists_zip h
+  rw [ht, encTape_ofZip]
+  simp [Tape.ofZip]
+  omega
+
+theorem encTape_ends (hd sep : Γ) (t : Tape Γ) : ∃ D, encTape hd sep t = D ++ [sep] :=
+  ⟨_, rfl⟩
+
+section Moves
+variable (hd sep b : Γ)
+
+/-- `write_symbol` then `move` keep a tape representable. -/
+theorem GoodTape.step {t : Tape Γ} (h : GoodTape hd sep b t) (hb : b ≠ hd ∧ b ≠ sep) (s : Γ)
+    (hs : s ≠ hd ∧ s ≠ sep) (d : Dir) : GoodTape hd sep b ((t.write s).move d) := by
+  refine ⟨Tape.move_wf _ _, by simp [h.blank], ?_⟩
+  obtain ⟨A, c, B, ht⟩ := Tape.exists_zip h.wf
+  have hcl := h.clean
+  rw [ht] at hcl ⊢
+  rw [h.blank] at hcl ⊢
+  have hA : Clean hd sep A := fun x hx => hcl x (by simp [Tape.ofZip, hx])
+  have hB : Clean hd sep B := fun x hx => hcl x (by simp [Tape.ofZip, hx])
+  rw [Tape.ofZip_write]
+  have key : ∀ A' c' B', Clean hd sep A' → (c' ≠ hd ∧ c' ≠ sep) → Clean hd sep B' →
+      Clean hd sep (Tape.ofZip A' c' B' b).cells := by
+    intro A' c' B' h1 h2 h3
+    exact h1.append (Clean.cons h2 h3)
+  cases d with
+  | R =>
+    cases B with
+    | nil => rw [Tape.ofZip_move_R_end]; exact key _ _ _ (hA.append (Clean.cons hs Clean.nil)) hb Clean.nil
+    | cons x B' =>
+      rw [Tape.ofZip_move_R_mid]
+      exact key _ _ _ (hA.append (Clean.cons hs Clean.nil)) (hB x (by simp))
+        (fun y hy => hB y (by simp [hy]))
+  | N => rw [Tape.move_stay (Tape.ofZip_wf _ _ _ _) (Or.inl rfl)]; exact key _ _ _ hA hs hB
+  | bad => rw [Tape.move_stay (Tape.ofZip_wf _ _ _ _) (Or.inr rfl)]; exact key _ _ _ hA hs hB
+  | L =>
+    rcases List.eq_nil_or_concat A with rfl | ⟨A', a, hAeq⟩
+    · rw [Tape.ofZip_move_L_left]; exact key _ _ _ Clean.nil hb (Clean.cons hs hB)
+    · rw [List.concat_eq_append] at hAeq
+      subst hAeq
+      rw [Tape.ofZip_move_L_mid]
+      exact key _ _ _ (fun y hy => hA y (by simp [hy])) (hA a (by simp)) (Clean.cons hs hB)
+
+/-- **One move on one virtual tape**: scanning from the first symbol of the encoding of `t`
+rewrites exactly that encoding into the encoding of `(t.write s).move d` and stops right after
+its separator — whatever precedes (`done`: nothing, or something ending with a separator) and
+follows. -/
+theorem scan_tape (hne : sep ≠ hd) (hb : b ≠ hd ∧ b ≠ sep) (s : Γ) (hs : s ≠ hd ∧ s ≠ sep) (d : Dir)
+    {t : Tape Γ} (ht : GoodTape hd sep b t) (done rest : List Γ)
+    (hdone : done = [] ∨ ∃ D, done = D ++ [sep]) (fuel : Nat)
+    (hfuel : (encTape hd sep t).length + 1 ≤ fuel) :
+    scanMove hd sep b s d fuel (done ++ encTape hd sep t ++ rest) (done.length : Int) =
+      .ok (some (done ++ encTape hd sep ((t.write s).move d) ++ rest,
+        ((done.length + (encTape hd sep ((t.write s).move d)).length : Nat) : Int))) := by
+  obtain ⟨A, c, B, hz⟩ := Tape.exists_zip ht.wf
+  have hcl := ht.clean
+  have hlen := encTape_length hd sep ht.wf
+  have hcells : t.cells.length = A.length + B.length + 1 := by
+    rw [hz]; simp [Tape.ofZip]; omega
+  have hfuel' : A.length + B.length + 4 ≤ fuel := by omega
+  clear hlen hfuel hcells
+  rw [hz] at hcl ⊢
+  rw [ht.blank] at hcl ⊢
+  have hA : Clean hd sep A := fun x hx => hcl x (by simp [Tape.ofZip, hx])
+  have hB : Clean hd sep B := fun x hx => hcl x (by simp [Tape.ofZip, hx])
+  have hc : c ≠ hd ∧ c ≠ sep := hcl c (by simp [Tape.ofZip])
+  have hf : fuel = (fuel - (A.length + B.length + 4)) + (A.length + B.length + 4) := by omega
+  rw [hf, encTape_ofZip]
+  exact scan_zip hd sep b hne hb s hs d A c B hA hc hB done rest hdone _
+
+/-- The moves of one transition, applied tape by tape (`zip(moves, tapes)`). -/
+def stepTapes (moves : List (Γ × Dir)) (ts : List (Tape Γ)) : List (Tape Γ) :=
+  List.zipWith (fun (m : Γ × Dir) (tp : Tape Γ) => (tp.write m.1).move m.2) moves ts
+
+theorem encode_cons (t : Tape Γ) (ts : List (Tape Γ)) :
+    encode hd sep (t :: ts) = encTape hd sep t ++ encode hd sep ts := by
+  simp [encode]
+
+theorem spliceMoves_encode (hne : sep ≠ hd) (hb : b ≠ hd ∧ b ≠ sep) :
+    ∀ (moves : List (Γ × Dir)) (ts : List (Tape Γ)) (done : List Γ),
+      moves.length = ts.length → (∀ m ∈ moves, m.1 ≠ hd ∧ m.1 ≠ sep) →
+      (∀ t ∈ ts, GoodTape hd sep b t) → (done = [] ∨ ∃ D, done = D ++ [sep]) →
+      spliceMoves hd sep b moves (done ++ encode hd sep ts) (done.length : Int) =
+        .ok (some (done ++ encode hd sep (stepTapes moves ts),
+          (((done ++ encode hd sep (stepTapes moves ts)).length : Nat) : Int))) := by
+  intro moves
+  induction moves with
+  | nil =>
+    intro ts done hl _ _ _
+    have : ts = [] := by cases ts with | nil => rfl | cons _ _ => simp at hl
+    subst this
+    simp [spliceMoves, stepTapes, encode]
+  | cons m ms ih =>
+    intro ts done hl hm hts hdone
+    cases ts with
+    | nil => simp at hl
+    | cons t ts' =>
+      have ht := hts t (by simp)
+      rw [encode_cons]
+      unfold spliceMoves
+      have htape : done ++ (encTape hd sep t ++ encode hd sep ts') =
+          done ++ encTape hd sep t ++ encode hd sep ts' := by simp
+      rw [htape, scan_tape hd sep b hne hb m.1 (hm m (by simp)) m.2 ht done (encode hd sep ts') hdone]
+      · simp only
+        have hdone' : (done ++ encTape hd sep ((t.write m.1).move m.2) = [] ∨
+            ∃ D, done ++ encTape hd sep ((t.write m.1).move m.2) = D ++ [sep]) := by
+          obtain ⟨D, hD⟩ := encTape_ends hd sep ((t.write m.1).move m.2)
+          exact Or.inr ⟨done ++ D, by rw [hD]; simp⟩
+        have hidx : ((done.length + (encTape hd sep ((t.write m.1).move m.2)).length : Nat) : Int) =
+            (((done ++ encTape hd sep ((t.write m.1).move m.2)).length : Nat) : Int) := by simp
+        rw [hidx, ih ts' _ (by simpa using hl) (fun x hx => hm x (by simp [hx]))
+          (fun x hx => hts x (by simp [hx])) hdone']
+        simp [stepTapes, encode_cons]
+      · simp only [List.length_append]
+        omega
+
+/-- **Splice = encode ∘ native step** (`C17_step`): for `|moves| = |tapes|`, representable
+tapes, written symbols and blank different from the two marks, the splice loop turns the
+encoding of the tapes into the encoding of the tapes after `write_symbol`/`move`; the recorded
+head position is the last index. -/
+theorem spliceAll_encode (hne : sep ≠ hd) (hb : b ≠ hd ∧ b ≠ sep) (q : σ) (moves : List (Γ × Dir))
+    (ts : List (Tape Γ)) (hl : moves.length = ts.length) (hm : ∀ m ∈ moves, m.1 ≠ hd ∧ m.1 ≠ sep)
+    (hts : ∀ t ∈ ts, GoodTape hd sep b t) :
+    spliceAll hd sep b (encode hd sep ts) (q, moves) =
+      .ok (some (q, encode hd sep (stepTapes moves ts),
+        (((encode hd sep (stepTapes moves ts)).length : Nat) : Int) - 1)) := by
+  unfold spliceAll
+  have := spliceMoves_encode hd sep b hne hb moves ts [] hl hm hts (Or.inl rfl)
+  simp only [List.nil_append, List.length_nil, Int.natCast_zero] at this
+  simp only [this]
+
+end Moves
+
+/-! ### `_read_extended_tape` on an encoding -/
+
+section Decode
+variable (hd sep : Γ)
+
+theorem readExt_to_head (X : List Γ) (hX : Clean hd sep X) (c : Γ) (hc : c ≠ hd ∧ c ≠ sep) :
+    ∀ (prev : Option Γ) (Y heads : List Γ) (hf seps : Nat),
+      readExtAux hd sep prev (X ++ c :: hd :: Y) heads hf seps =
+        readExtAux hd sep (some hd) Y (heads ++ [c]) (hf + 1) seps := by
+  induction X with
+  | nil =>
+    intro prev Y heads hf seps
+    simp [readExtAux, hc.1, hc.2]
+  | cons x X ih =>
+    intro prev Y heads hf seps
+    have hx := hX x (by simp)
+    simp only [List.cons_append, readExtAux, hx.1, hx.2, if_false]
+    exact ih (fun y hy => hX y (by simp [hy])) _ _ _ _ _
+
+theorem readExt_to_sep (hne : sep ≠ hd) (B : List Γ) (hB : Clean hd sep B) :
+    ∀ (prev : Option Γ) (Y heads : List Γ) (seps : Nat),
+      readExtAux hd sep prev (B ++ sep :: Y) heads 1 seps =
+        readExtAux hd sep (some sep) Y heads 0 (seps + 1) := by
+  induction B with
+  | nil =>
+    intro prev Y heads seps
+    simp [readExtAux, hne]
+  | cons x B ih =>
+    intro prev Y heads seps
+    have hx := hB x (by simp)
+    simp only [List.cons_append, readExtAux, hx.1, hx.2, if_false]
+    exact ih (fun y hy => hB y (by simp [hy])) _ _ _ _
+
+theorem readExt_tape (hne : sep ≠ hd) {b : Γ} {t : Tape Γ} (ht : GoodTape hd sep b t)
+    (prev : Option Γ) (Y heads : List Γ) (seps : Nat) :
+    readExtAux hd sep prev (encTape hd sep t ++ Y) heads 0 seps =
+      readExtAux hd sep (some sep) Y (heads ++ [t.read]) 0 (seps + 1) := by
+  obtain ⟨A, c, B, hz⟩ := Tape.exists_zip ht.wf
+  have hcl := ht.clean
+  rw [hz] at hcl ⊢
+  have hA : Clean hd sep A := fun x hx => hcl x (by simp [Tape.ofZip, hx])
+  have hB : Clean hd sep B := fun x hx => hcl x (by simp [Tape.ofZip, hx])
+  have hc : c ≠ hd ∧ c ≠ sep := hcl c (by simp [Tape.ofZip])
+  rw [encTape_ofZip, Tape.ofZip_read]
+  have h1 : A ++ c :: hd :: B ++ [sep] ++ Y = A ++ c :: hd :: (B ++ sep :: Y) := by simp
+  rw [h1, readExt_to_head hd sep A hA c hc, readExt_to_sep hd sep hne B hB]
+
+/-- **decode ∘ encode = heads** (`C17_decode_heads`). -/
+theorem readExtended_encode (hne : sep ≠ hd) {b : Γ} (ts : List (Tape Γ))
+    (hts : ∀ t ∈ ts, GoodTape hd sep b t) :
+    readExtended hd sep (encode hd sep ts) = .ok (ts.map Tape.read) := by
+  unfold readExtended
+  have key : ∀ (ts : List (Tape Γ)), (∀ t ∈ ts, GoodTape hd sep b t) →
+      ∀ (prev : Option Γ) (heads : List Γ) (seps : Nat), heads.length = seps →
+        readExtAux hd sep prev (encode hd sep ts) heads 0 seps = .ok (heads ++ ts.map Tape.read) := by
+    intro ts
+    induction ts with
+    | nil =>
+      intro _ prev heads seps hl
+      simp [encode, readExtAux, hl]
+    | cons t ts ih =>
+      intro hts prev heads seps hl
+      rw [encode_cons, readExt_tape hd sep hne (hts t (by simp))]
+      rw [ih (fun x hx => hts x (by simp [hx])) _ _ _ (by simp [hl])]
+      simp
+  simpa using key ts hts none [] 0 rfl
+
+end Decode
 
 end AV.TM
